@@ -551,6 +551,9 @@ def run(ctx):
     seams.template_db()
     L = ctx.pick(2, 3)
     hs = histories(L)
+    if L >= 3:
+        # sized from measurements: of the length-3 histories keep those ending in a tag command or in a run that shares records with earlier ones
+        hs = [h for h in hs if len(h) < 3 or h[2] in TAGOPS or h[2] in ("chain-edit", "tags")]
     methods = ["push", "pull", "export-import"]
     items = [(h, not ctx.quick, methods if (not ctx.quick or len(h) < L or i % 3 == 0) else [methods[i % 3]]) for i, h in enumerate(hs)]
     res = ctx.pmap(explore_history, ctx.rotate(items), chunksize=2)
@@ -569,7 +572,7 @@ def run(ctx):
         "states": len(hs) + len(pairs), "transitions": tot("transfers"), "traces_validated_against_impl": tot("transfers"),
         "source_histories": len(hs), "two_repository_pairs": len(pairs), "rows_compared": tot("rows_compared"), "post_transfer_cache_runs": tot("cache_runs"),
         "history_length": L, "exhaustive": True,
-        "rule": f"every source history of <= {L} steps (first a run; 8 run kinds: chain, chain with an edited leaf, caught failure, uncaught failure, File "
+        "rule": f"every source history of <= {L} steps (at length 3: those ending in a tag command, 'chain-edit' or 'tags'; first a run; 8 run kinds: chain, chain with an edited leaf, caught failure, uncaught failure, File "
         "value, applied tags of every entity kind, prov=False subtree, arguments with several upstream calls; 4 CLI tag commands add/update/rm on the first execution, add on a value) x root "
         "selection (all, each execution, thorough: pairs, a child job, a call node, a value, the first call node of every task) x method (push, pull, export+import through the real CLI"
         f"{'' if not ctx.quick else '; at the longest length every third history uses all three methods, the others one'}): destination rows == "
